@@ -898,6 +898,58 @@ func genShape(repo string) (*leanFile, error) {
 	}
 	lf.pf("/-- `Channel.Close` goes on with the client-side teardown when the write of the teardown packet fails -/\n")
 	lf.pf("def closeTearsDownAfterWriteError : Bool := %v\n", tearsDown)
+	// NextPackageUntil: the loop that consumes the rest of a response after the callback failed ends at the
+	// first error NextPackage returns (whatever error: the transport's included) — in NextPackageUntil or in a
+	// Channel method it reaches: a for loop that calls NextPackage and whose `err != nil` branch is a lone
+	// break or a return
+	npu := p.funcDecl("Channel", "NextPackageUntil")
+	cleanupEnds, cleanupSeen := true, false
+	for _, fd := range reachable(npu) {
+		if fd.Recv == nil || len(fd.Recv.List) != 1 || strings.TrimPrefix(exprStr(fd.Recv.List[0].Type), "*") != "Channel" {
+			continue
+		}
+		if fd != npu && fd.Name.IsExported() {
+			continue
+		}
+		ast.Inspect(fd.Body, func(n ast.Node) bool {
+			loop, ok := n.(*ast.ForStmt)
+			if !ok || loop.Cond != nil {
+				return true
+			}
+			for i, st := range loop.Body.List {
+				as, ok := st.(*ast.AssignStmt)
+				if !ok || len(as.Rhs) != 1 {
+					continue
+				}
+				ce, ok := as.Rhs[0].(*ast.CallExpr)
+				if !ok || !strings.HasSuffix(exprStr(ce.Fun), ".NextPackage") || i+1 >= len(loop.Body.List) {
+					continue
+				}
+				ifs, ok := loop.Body.List[i+1].(*ast.IfStmt)
+				if !ok || exprStr(ifs.Cond) != "err != nil" {
+					cleanupEnds = false
+					continue
+				}
+				cleanupSeen = true
+				if len(ifs.Body.List) != 1 {
+					cleanupEnds = false
+					continue
+				}
+				switch b := ifs.Body.List[0].(type) {
+				case *ast.BranchStmt:
+					if b.Tok != token.BREAK {
+						cleanupEnds = false
+					}
+				case *ast.ReturnStmt:
+				default:
+					cleanupEnds = false
+				}
+			}
+			return true
+		})
+	}
+	lf.pf("/-- the loop of `NextPackageUntil` that consumes the rest of a response after a failed callback ends at the first error of `NextPackage` -/\n")
+	lf.pf("def untilCleanupEndsAtFirstError : Bool := %v\n", cleanupSeen && cleanupEnds)
 	lf.pf("\nend Dblib.Gen.Shape\n")
 	return lf, nil
 }
